@@ -128,3 +128,11 @@ func (s *Substituter) PostProcessAfterInitialization(c any, name string) (any, e
 	}
 	return c, nil
 }
+
+// EarlySubstituter is a Substituter that is sequenced before every other post-processor (priority-ordered,
+// lowest order): it is active while the other post-processor components are being created.
+type EarlySubstituter struct{ *Substituter }
+
+func (s EarlySubstituter) Order() int     { return -1 << 40 }
+func (s EarlySubstituter) Priority()      {}
+func (s EarlySubstituter) Naming() string { return "verif.earlysubstituter" }
